@@ -4,6 +4,7 @@
    MC_PtLF_<shape>_x.cfg      export: `hist` is part of the state, so TLC walks the tree of ALL
                               interleavings (Eager = TRUE) and prints one "SCHED {json}" line per
                               maximal interleaving; invariants are checked on the way.
+   MC_PtLF_<shape>_sim.cfg    export by random walks (-simulate) for shapes with too many interleavings
    MC_PtLF_mut_*.cfg          mutation self-tests (an invariant must be violated). *)
 EXTENDS PtLookupForget, Json
 
@@ -26,12 +27,18 @@ Ops_LF2 == <<LKP("a"), LKP("b"), FGT(<<2>>)>>                     \* over-counte
 Ops_LBF == <<LKP("a"), LKP("b"), FGT(<<1, 1>>)>>                  \* batch_forget with two items
 Ops_1L1F == <<LKP("a"), FGT(<<1>>)>>
 
+R0_0 == {0}
+R0_01 == {0, 1}
 R0_012 == {0, 1, 2}
 R0_12 == {1, 2}
 R0_1 == {1}
 R0_123 == {1, 2, 3}
 
 ASSUME PrintT("OPS " \o ToJson(Ops))
+
+\* simulation export (-simulate): no stuttering after termination, so that a walk ends at AllDone
+NextNT == (\E self \in LK : lk(self)) \/ (\E self \in FG : fg(self))
+SpecNT == Init /\ [][NextNT]_vars
 
 \* one line per maximal interleaving (export configs only)
 Export == AllDone => PrintT("SCHED " \o ToJson([r0 |-> r0, s |-> hist]))
